@@ -8,17 +8,17 @@
 cd "$(dirname "$0")/../lean" || exit 2
 mkdir -p BitstringModel/Scratch
 fail=0
-for f in BitstringModel/Props/C??_Src.lean; do
-  c=$(basename $f _Src.lean)
+for f in BitstringModel/Props/C??_Src*.lean; do
+  b=$(basename $f .lean); c=${b%%_*}; sfx=${b#*_}
   for vf in BitstringModel/Variants/Src*.lean; do
     v=$(basename $vf .lean); v=${v#Src}
-    out=BitstringModel/Scratch/${c}_Src$v.lean
+    out=BitstringModel/Scratch/${c}_${sfx}$v.lean
     sed -e "s/import BitstringModel.Gen.Src/import BitstringModel.Variants.Src$v/" -e "s/Gen\.Src\./Gen.Src$v./g" \
         -e "s/namespace BM\.$c\.Src/namespace BM.$c.Src$v/" -e "s/end BM\.$c\.Src/end BM.$c.Src$v/" $f > $out
   done
 done
 lake build $(ls BitstringModel/Variants/Src*.lean | sed 's|/|.|g; s|\.lean$||') >/dev/null 2>&1 || { echo "variant modules do not build"; exit 2; }
-for out in BitstringModel/Scratch/C??_Src??.lean; do
+for out in BitstringModel/Scratch/C??_Src*.lean; do
   if lake env lean $out 2>&1 | grep -q "error"; then echo "FAIL $out"; fail=1; else echo "ok   $out"; fi
 done
 rm -rf BitstringModel/Scratch
